@@ -102,6 +102,72 @@ def _resolve(fn, e: ast.AST, depth=0) -> ast.AST:
     return e
 
 
+def _broadcast_pos(sl: ast.AST):
+    """axis a 1-D vector is laid along by `v[:, None]` (0) / `v[None, :]` (1); None otherwise"""
+    elts = sl.elts if isinstance(sl, ast.Tuple) else [sl]
+    if len(elts) != 2:
+        return None
+    kinds = ["n" if is_const(e, None) else ("s" if isinstance(e, ast.Slice) and e.lower is None and e.upper is None else "?") for e in elts]
+    return {("s", "n"): 0, ("n", "s"): 1}.get(tuple(kinds))
+
+
+def _rule_memo(check, repo: Repo, mod) -> None:
+    """Every function of imaging_utils that stores into a module-level container keys the entry on all of its parameters that the stored value depends on."""
+    tops = {}
+    for st in mod.tree.body:
+        tg = st.targets[0] if isinstance(st, ast.Assign) else (st.target if isinstance(st, ast.AnnAssign) else None)
+        val = getattr(st, "value", None)
+        if isinstance(tg, ast.Name) and val is not None and (isinstance(val, (ast.Dict, ast.List, ast.Set)) or
+                                                             (isinstance(val, ast.Call) and (call_name(val) or "") in ("dict", "list", "set", "OrderedDict", "defaultdict"))):
+            tops[tg.id] = st
+    n_fn = 0
+    for fn in [n for n in ast.walk(mod.tree) if isinstance(n, (ast.FunctionDef, ast.AsyncFunctionDef))]:
+        n_fn += 1
+        params = set(func_params(fn))
+        for n in ast.walk(fn):
+            store = None
+            if isinstance(n, ast.Assign) and isinstance(n.targets[0], ast.Subscript) and isinstance(n.targets[0].value, ast.Name) and n.targets[0].value.id in tops \
+                    and not definitions(fn, n.targets[0].value.id):
+                store = (n.targets[0].value.id, n.targets[0].slice, n.value)
+            elif isinstance(n, ast.Call) and isinstance(n.func, ast.Attribute) and isinstance(n.func.value, ast.Name) and n.func.value.id in tops \
+                    and n.func.attr in ("append", "add", "extend", "update", "setdefault", "insert") and not definitions(fn, n.func.value.id):
+                check.violated("C13-R5", f"{fn.name}: no state is kept between calls", f"`{unparse(n)[:70]}` accumulates into the module-level `{n.func.value.id}`: the result of a call depends on "
+                               f"earlier calls", mod.line(n))
+                continue
+            if store is None:
+                continue
+            g, key, val = store
+            dep, seen, stack = set(), set(), [val]
+            while stack:
+                e = stack.pop()
+                for x in ast.walk(e):
+                    if isinstance(x, ast.Name) and x.id not in seen:
+                        seen.add(x.id)
+                        if x.id in params and not [d for d in definitions(fn, x.id)]:
+                            dep.add(x.id)
+                        for d in definitions(fn, x.id):
+                            if isinstance(d, ast.AST):
+                                stack.append(d)
+                            elif hasattr(d, "value") and isinstance(d.value, ast.AST):
+                                stack.append(d.value)
+            keyed, seen2, stack = set(), set(), [key]
+            while stack:
+                e = stack.pop()
+                for x in ast.walk(e):
+                    if isinstance(x, ast.Name) and x.id not in seen2:
+                        seen2.add(x.id)
+                        if x.id in params:
+                            keyed.add(x.id)
+                        for d in definitions(fn, x.id):
+                            if isinstance(d, ast.AST):
+                                stack.append(d)
+            missing = sorted(dep - keyed)
+            check.decide(not missing, "C13-R5", f"{fn.name}: the cache `{g}` is keyed on every parameter the cached value depends on", f"key `{unparse(key)[:40]}`", mod.line(n),
+                         fail_detail=f"`{g}[{unparse(key)[:40]}]` caches a value that depends on parameter(s) {missing} which are not part of the key: a later call with another "
+                                     f"{missing[0]} silently reuses the first one's value")
+    check.holds("C13-R5", "imaging_utils: registration helpers keep no un-keyed module-level state", f"{n_fn} functions, module-level containers: {sorted(tops) or 'none'}", nontrivial=False)
+
+
 def _forward_slice_names(fn, seeds: set[str]) -> set[str]:
     names = set(seeds)
     changed = True
@@ -355,20 +421,62 @@ def run(check, repo: Repo) -> None:
     ok = len(wr) == 1 and unparse(wr[0].value) == "(shifts + 0.5 * np.array(cc.shape)) % cc.shape - 0.5 * np.array(cc.shape)"
     check.decide(ok, "C13-R2", "cross_correlation_shift: the result is wrapped into the centred cell per axis (vector of both extents)", "", mod.line(ccs),
                  fail_detail="the final wrap is not (s + shape/2) mod shape − shape/2 with the full shape vector")
-    # max_shift mask coordinates
-    for nm, ext in (("x", "cc.shape[0]"), ("y", "cc.shape[1]")):
-        d = [v for v in definitions(ccs, nm) if isinstance(v, ast.AST)]
+    # max_shift mask coordinates (in cross_correlation_shift itself or in the module-level helper that builds the mask)
+    mfn, ext_of = ccs, {0: "cc.shape[0]", 1: "cc.shape[1]"}
+    zero_st = [n for n in walk_no_nested_defs(ccs) if isinstance(n, ast.Assign) and isinstance(n.targets[0], ast.Subscript) and unparse(n.targets[0].value) == "cc_real"
+               and isinstance(n.value, ast.Constant) and n.value.value == 0]
+    if len(zero_st) != 1:
+        raise AnalysisError("cross_correlation_shift: `cc_real[mask] = 0` not found")
+    msel = zero_st[0].targets[0].slice
+    mask_name = msel.id if isinstance(msel, ast.Name) else None
+    if isinstance(msel, ast.Call) and isinstance(msel.func, ast.Name) and repo.has(f"{IU}:{msel.func.id}"):
+        _, mfn = repo.func(f"{IU}:{msel.func.id}")
+        check.analysed(f"{IU}:{msel.func.id}")
+        hp = func_params(mfn)
+        ext_of = {}
+        for prm, a_ in zip(hp, msel.args):
+            if unparse(a_) == "cc.shape":
+                ext_of = {0: f"{prm}[0]", 1: f"{prm}[1]"}
+            elif unparse(a_) in ("cc", "cc_real"):
+                ext_of = {0: f"{prm}.shape[0]", 1: f"{prm}.shape[1]"}
+        if not ext_of:
+            raise AnalysisError(f"cross_correlation_shift: mask helper `{unparse(msel)[:60]}` does not receive the correlation shape")
+        stores_ = [n for n in ast.walk(mfn) if isinstance(n, (ast.Assign, ast.Return)) and n.value is not None and any(isinstance(x, ast.Compare) for x in ast.walk(n.value))]
+        if len(stores_) != 1:
+            raise AnalysisError(f"{mfn.name}: mask expression not found")
+        mask_expr = stores_[0].value
+        ms_name = [prm for prm, a_ in zip(hp, msel.args) if unparse(a_) == "max_shift"]
+        ms_name = ms_name[0] if ms_name else None
+    else:
+        if mask_name is None:
+            raise AnalysisError(f"cross_correlation_shift: mask selector `{unparse(msel)[:60]}` not understood")
+        md = [d for d in definitions(ccs, mask_name) if isinstance(d, ast.AST)]
+        if len(md) != 1:
+            raise AnalysisError("cross_correlation_shift: mask definition not found")
+        mask_expr, ms_name = md[0], "max_shift"
+    # mask = (row coordinate laid along axis 0)² + (column coordinate laid along axis 1)² ≥ max_shift²
+    ok_form = isinstance(mask_expr, ast.Compare) and len(mask_expr.ops) == 1 and isinstance(mask_expr.ops[0], (ast.GtE, ast.Gt)) and ms_name is not None \
+        and unparse(mask_expr.comparators[0]).replace(" ", "") in (f"{ms_name}**2", f"{ms_name}*{ms_name}")
+    terms = []
+    if ok_form and isinstance(mask_expr.left, ast.BinOp) and isinstance(mask_expr.left.op, ast.Add):
+        for side in (mask_expr.left.left, mask_expr.left.right):
+            if isinstance(side, ast.BinOp) and isinstance(side.op, ast.Pow) and is_const(side.right, 2) and isinstance(side.left, ast.Subscript) and isinstance(side.left.value, ast.Name):
+                terms.append((side.left.value.id, _broadcast_pos(side.left.slice)))
+    check.decide(ok_form and len(terms) == 2 and sorted(t[1] for t in terms) == [0, 1], "C13-R2", "cross_correlation_shift: the mask removes shifts of radius ≥ max_shift", unparse(mask_expr)[:80],
+                 mod.line(mask_expr), fail_detail=f"mask = `{unparse(mask_expr)[:90]}` is not (row index)² + (column index)² ≥ max_shift² on the (rows, columns) grid")
+    for nm, pos in terms:
+        d = [v for v in definitions(mfn, nm) if isinstance(v, ast.AST)]
         if len(d) != 1:
             raise AnalysisError(f"cross_correlation_shift: mask coordinate {nm} not found")
         cls, n_, why = classify_index_vector(d[0])
         if cls is None:
             raise AnalysisError(f"cross_correlation_shift: mask coordinate {nm}: {why}")
-        check.decide(cls == "good" and n_ == ext, "C13-R2", f"cross_correlation_shift: max_shift mask coordinate `{nm}` is the FFT-ordered signed index of {ext}",
+        ext = ext_of.get(pos)
+        check.decide(cls == "good" and n_ == ext, "C13-R2", f"cross_correlation_shift: max_shift mask coordinate on axis {pos} is the FFT-ordered signed index of that axis' extent",
                      why, mod.line(d[0]),
-                     fail_detail=f"`{unparse(d[0])}`: {why} — the allowed disc is not centred on zero shift")
-    mk = [unparse(d) for d in definitions(ccs, "mask") if isinstance(d, ast.AST)]
-    check.decide(mk == ["x[:, None] ** 2 + y[None, :] ** 2 >= max_shift ** 2"], "C13-R2", "cross_correlation_shift: the mask removes shifts of radius ≥ max_shift", str(mk), mod.line(ccs),
-                 fail_detail=f"mask = {mk}")
+                     fail_detail=f"`{unparse(d[0])}` (extent {n_}, expected {ext}): {why} — the allowed disc is not centred on zero shift / uses the other axis' extent")
+    # no cross-call state: a memoised helper must key its cache on every parameter the cached value depends on
+    _rule_memo(check, repo, mod)
 
     # ---- R3 sibling agreement: parabolic refinement -----------------------------------------------------------
     canon = (Rat.sym("v2") - Rat.sym("v0")) / (Rat.const(4) * Rat.sym("v1") - Rat.const(2) * Rat.sym("v2") - Rat.const(2) * Rat.sym("v0"))
